@@ -218,10 +218,22 @@ def convex_hull(
     # hull object doesn't remove unreferenced vertices
     # create a mask to re- index faces for only referenced vertices
     vid = np.sort(hull.vertices)
+    simplices = hull.simplices
+    if qhull_str is not None and "QJ" in qhull_str:
+        # joggling turns points inside hull edges and facets into hull
+        # vertices joined by facets that have no area once the original
+        # coordinates are put back: those vertices are a superset of the
+        # extreme points so hull them once more without the joggle
+        try:
+            exact = ConvexHull(centered[vid], qhull_options=str(QHULL_DEFAULT))
+            simplices = vid[exact.simplices]
+            vid = vid[np.sort(exact.vertices)]
+        except QhullError:
+            pass
     mask = np.zeros(len(hull.points), dtype=np.int64)
     mask[vid] = np.arange(len(vid))
     # remove unreferenced vertices here
-    faces = mask[hull.simplices].copy()
+    faces = mask[simplices].copy()
     # take the vertices from the original points
     vertices = points[vid].copy()
 
